@@ -14,6 +14,7 @@ WORLDS = {
     "W3f": dict(keys="W3fKeys", files="W3Files", scripts="W3Scripts", srcs="W3Srcs", ops="W3fOps", hasr=True),
     "W4":  dict(keys="W4Keys", files="W4Files", scripts="W4Scripts", srcs="W4Srcs", ops="W4Ops", hasr=True),
     "W4r": dict(keys="W4Keys", files="W4Files", scripts="W4Scripts", srcs="W4Srcs", ops="W4rOps", hasr=True),
+    "W9n": dict(keys="W9nKeys", files="W9nFiles", scripts="W9nScripts", srcs="W9nSrcs", ops="W9nOps", hasr=True),
     "W4n": dict(keys="W4Keys", files="W4Files", scripts="W4Scripts", srcs="W4Srcs", ops="W4nOps", hasr=True),
     "W4d": dict(keys="W4Keys", files="W4Files", scripts="W4Scripts", srcs="W4Srcs", ops="W4dOps", hasr=True),
     "W5":  dict(keys="W5Keys", files="W5Files", scripts="W5Scripts", srcs="W5Srcs", ops="W5Ops", hasr=True, dirsu='{"d.e"}'),
